@@ -57,7 +57,7 @@ _KEEP = {
     'IdleE': ['d', 'b', 'exc', 'qn'],
     'StopB': ['d', 'b', 'tmo', 'running'],
     'StopE': ['d', 'b', 'exc'],
-    'CancelRL': ['d', 'b'],
+    'CancelRL': ['d', 'b', 'had'],
     'ExpB': ['d', 'x', 'b', 'ty', 'inc', 'exc', 'tmo'],
     'ExpE': ['d', 'x', 'b', 'e', 'err'],
     'ProcB': ['b', 'e', 'n'],
@@ -169,7 +169,7 @@ def validate_obs(traces, jobs=8, batch=150, keep_dir=None):
 # conformance: TraceImpl (the recorded trace replayed through the actions of Bubus.tla)
 # ---------------------------------------------------------------------------------------------
 _H_OPS = {'d', 'y', 's', 'a', 'rb', 'raise', 'ret', 'g', 'logop'}
-_D_OPS = {'d', 'a', 'y', 's', 'idle', 'g', 'acc'}
+_D_OPS = {'d', 'a', 'y', 's', 'idle', 'g', 'acc', 'stop', 'crl'}
 
 
 def impl_eligible(scn):
@@ -182,6 +182,8 @@ def impl_eligible(scn):
         return False
     if any((t or {}).get('timeout') is not None for t in scn.get('events', {}).values()) and any(b.get('parallel') for b in scn['buses']):
         return False   # timeouts on parallel buses are not modelled yet
+    if any(b.get('parallel') for b in scn['buses']) and any(op[0] in ('stop', 'crl') for ops in scn['drivers'] for op in ops):
+        return False   # cancelling a run loop that awaits parallel execute_handler tasks is not modelled yet
     for sc in scn['scripts'].values():
         for ops in sc.values():
             for op in ops:
@@ -189,8 +191,21 @@ def impl_eligible(scn):
                     return False
     for ops in scn['drivers']:
         for op in ops:
-            if op[0] not in _D_OPS or (op[0] == 'd' and ((len(op) > 3 and op[3]) or len(op) > 4)) or (op[0] == 'idle' and len(op) > 2 and op[2] is not None and op[2] < 1000):
+            if op[0] not in _D_OPS or (op[0] == 'd' and ((len(op) > 3 and op[3]) or len(op) > 4)) or (op[0] == 'idle' and len(op) > 2 and op[2] is not None and op[2] < 1000) \
+                    or (op[0] == 'stop' and ((len(op) > 2 and op[2]) or (len(op) > 3 and op[3]))):
                 return False
+    return True
+
+
+def impl_trace_ok(tr):
+    """trace-level exclusions of corners the model deliberately leaves out (documented in DESIGN.md 12.3)"""
+    stopped = set()
+    for l in tr['lines']:
+        a = l['a']
+        if a in ('StopB', 'CancelRL'):
+            stopped.add(l['b'])
+        elif a in ('Disp', 'IdleB') and l['b'] in stopped:
+            return False      # a bus used again after stop()/cancel: a new run loop next to the dying one (findings G2/G3 territory)
     return True
 
 
